@@ -54,6 +54,14 @@ func initScratch() {
 	}
 	startCwd, _ = os.Getwd()
 	base := os.Getenv("VERIF_C18_SCRATCH")
+	for _, a := range os.Args[1:] {
+		if strings.TrimLeft(a, "-") == "replay" || strings.HasPrefix(strings.TrimLeft(a, "-"), "replay=") {
+			// hxlib leaves a replay through os.Exit: use the directory ./check removes afterwards
+			if d := os.Getenv("VERIF_SCRATCH_DIR"); d != "" && base == "" {
+				base = d
+			}
+		}
+	}
 	if base == "" {
 		base = "/dev/shm"
 		if st, err := os.Stat(base); err != nil || !st.IsDir() {
@@ -212,7 +220,9 @@ func (e *exec) build() {
 	}
 	e.gen++
 	e.caseDir = filepath.Join(scratchBase, fmt.Sprintf("c%d", caseNo.Add(1)))
-	top := filepath.Join(e.caseDir, "sb")
+	// the sandbox top sits 8 levels below the case directory: generated climbs (at most depth+3 parent
+	// references, 6 in mixed names) stay inside the case directory even if a broken component follows them
+	top := filepath.Join(e.caseDir, "p1/p2/p3/p4/p5/p6/p7/p8/sb")
 	must(os.MkdirAll(top, 0o755))
 	var decoy func(dir string)
 	switch e.comp {
@@ -228,7 +238,7 @@ func (e *exec) build() {
 			must(os.WriteFile(filepath.Join(dir, "evil_v6-6-6"), []byte("OUTSIDE resource\n"), 0o644))
 		}
 	}
-	e.sb = newSandbox(top, e.rootRel, decoy)
+	e.sb = newSandbox(e.caseDir, top, e.rootRel, decoy)
 	e.rootGiven = e.sb.root
 	if e.variant == "slash" {
 		e.rootGiven += "/"
@@ -293,7 +303,7 @@ func (e *exec) restoreInside() {
 // listAll lists every file and directory of the sandbox (inside and outside the root).
 func (e *exec) listAll() map[string]bool {
 	m := map[string]bool{}
-	_ = filepath.Walk(e.sb.top, func(p string, info os.FileInfo, err error) error {
+	_ = filepath.Walk(e.sb.scope, func(p string, info os.FileInfo, err error) error {
 		if err == nil {
 			m[p] = info.IsDir()
 		}
@@ -543,7 +553,7 @@ func (e *exec) prepFst(op, key string) (func(), finishFn) {
 				return d, d == "acc oserr"
 			}
 			var where []string
-			_ = filepath.Walk(s.top, func(p string, info os.FileInfo, err error) error {
+			_ = filepath.Walk(s.scope, func(p string, info os.FileInfo, err error) error {
 				if err == nil && info.Mode().IsRegular() {
 					if b, err := os.ReadFile(p); err == nil && bytes.Contains(b, []byte(marker)) {
 						where = append(where, s.virt(p))
